@@ -77,6 +77,9 @@ type JobsScenario struct {
 	Name    string     `json:"name"`
 	Jobs    []string   `json:"jobs"` // job types by index: incremental | fullsync
 	Threads [][]JobsOp `json:"threads"`
+	// Pool: tickets per pool for this scenario (0 = the world's 1/1). With more than one ticket the pool bound
+	// no longer hides a failing "one run per id" check.
+	Pool int `json:"pool,omitempty"`
 }
 
 type JobsOp struct {
@@ -120,6 +123,12 @@ func c11RunSched(sc *JobsScenario, prefix []int, horizon int) *vsync.Execution {
 		jobsL = append(jobsL, jb)
 		ids = append(ids, jc.ID)
 	}
+	poolSize := 1
+	if sc.Pool > 0 {
+		poolSize = sc.Pool
+		jw.Runner.raffle.ticketsFull, jw.Runner.raffle.ticketsIncr = sc.Pool, sc.Pool
+		defer func() { jw.Runner.raffle.ticketsFull, jw.Runner.raffle.ticketsIncr = 1, 1 }()
+	}
 	fullBefore, incrBefore := jw.Runner.raffle.ticketsFull, jw.Runner.raffle.ticketsIncr
 	s := vsync.NewSched(prefix, horizon)
 	s.NameLock(&jw.Runner.raffle.runningMu, "raffle.runningMu")
@@ -127,8 +136,8 @@ func c11RunSched(sc *JobsScenario, prefix []int, horizon int) *vsync.Execution {
 		if st.maxPerID > 1 {
 			return "two runs of the same job id are active at the same time"
 		}
-		if st.maxFull > 1 || st.maxIncr > 1 {
-			return fmt.Sprintf("more jobs active than the pools allow: fullsync %d/1 incremental %d/1", st.maxFull, st.maxIncr)
+		if st.maxFull > poolSize || st.maxIncr > poolSize {
+			return fmt.Sprintf("more jobs active than the pools allow: fullsync %d/%d incremental %d/%d", st.maxFull, poolSize, st.maxIncr, poolSize)
 		}
 		return ""
 	}
@@ -238,6 +247,8 @@ func c11Sched(r *engine.Run) {
 		{Name: "J3-run-vs-kill-vs-status", Jobs: []string{"incremental"}, Threads: [][]JobsOp{{{K: "run", J: 0}}, {{K: "kill", J: 0}}, {{K: "status"}}}},
 		{Name: "J4-cron-vs-manual", Jobs: []string{"incremental"}, Threads: [][]JobsOp{{{K: "run", J: 0}}, {{K: "manual", J: 0}}}},
 		{Name: "J5-fullsync-twice-retry", Jobs: []string{"fullsync"}, Threads: [][]JobsOp{{{K: "run", J: 0}}, {{K: "run", J: 0}}}},
+		{Name: "J7-same-job-twice-two-tickets", Jobs: []string{"incremental"}, Pool: 2, Threads: [][]JobsOp{{{K: "run", J: 0}}, {{K: "run", J: 0}}}},
+		{Name: "J8-cron-vs-manual-two-tickets", Jobs: []string{"incremental"}, Pool: 2, Threads: [][]JobsOp{{{K: "run", J: 0}}, {{K: "manual", J: 0}}}},
 		{Name: "J6-incr-and-full-and-status", Jobs: []string{"incremental", "fullsync"}, Threads: [][]JobsOp{{{K: "run", J: 0}}, {{K: "run", J: 1}}, {{K: "status"}, {K: "kill", J: 1}}}},
 	}
 	for _, sc := range scs {
